@@ -49,8 +49,7 @@ package protobuf
 //@ func ToSubAlloc
 //@   noframe
 //@   ensures nonNilBals(subAlloc.Bals) && nonNeg(subAlloc.Bals)
-//@   ensures err == nil && protoSubAlloc != nil ==> subAlloc.ID == idBytes(protoSubAlloc.Id) && (protoSubAlloc.Bals != nil ==> pbBal(subAlloc.Bals, protoSubAlloc.Bals)) &&
-//@     (protoSubAlloc.IndexMap != nil ==> len(subAlloc.IndexMap) == len(protoSubAlloc.IndexMap.IndexMap) && forall i int :: 0 <= i && i < len(subAlloc.IndexMap) ==> subAlloc.IndexMap[i] == protoSubAlloc.IndexMap.IndexMap[i])
+//@   ensures err == nil && protoSubAlloc != nil ==> toSub(subAlloc, protoSubAlloc)
 
 //@ func ToWalletAddr
 //@   noframe
@@ -66,20 +65,39 @@ package protobuf
 //@     modifies addrs[*]
 //@     invariant fresh(arr(addrs)) && off(addrs) == 0 && len(addrs) == len(protoAddrs) && forall k int :: 0 <= k && k < $i ==> addrs[k] != nil && addrMapNonNil(addrs[k])
 
+// toSub / toAlloc: what the converted value is, in terms of the message (the converse of fromSub / fromAlloc below).
+//@ pred toSub(y channel.SubAlloc, p *SubAlloc) = y.ID == idBytes(p.Id) && (p.Bals != nil ==> pbBal(y.Bals, p.Bals)) &&
+//@   (p.IndexMap != nil ==> len(y.IndexMap) == len(p.IndexMap.IndexMap) && forall i int :: 0 <= i && i < len(y.IndexMap) ==> y.IndexMap[i] == p.IndexMap.IndexMap[i])
+//@ pred toAllocAssets(y *channel.Allocation, p *Allocation, n int) = forall k int :: 0 <= k && k < n ==> y.Assets[k] != nil && allocated(payload(y.Assets[k])) && unmarshalledFrom(y.Assets[k]) == bytesId(p.Assets[k])
+//@ pred toAlloc(y *channel.Allocation, p *Allocation) = len(y.Backends) == len(p.Backends) && len(y.Assets) == len(p.Assets) && len(y.Locked) == len(p.Locked) &&
+//@   (streaming() ==> forall i int :: 0 <= i && i < len(p.Backends) ==> be32is(p.Backends[i], y.Backends[i])) && toAllocAssets(y, p, len(p.Assets)) &&
+//@   (forall l int :: 0 <= l && l < len(p.Locked) ==> p.Locked[l] != nil ==> toSub(y.Locked[l], p.Locked[l])) && (p.Balances != nil ==> pbBals(y.Balances, p.Balances))
 //@ func ToAllocation
 //@   noframe
 //@   ensures err == nil ==> alloc != nil && validAlloc(*alloc) && len(alloc.Backends) == len(alloc.Assets) && nonNilAssets(alloc.Assets) &&
 //@           nonNilBalances(alloc.Balances) && nonNilLocked(alloc.Locked)
+//@   ensures err == nil && protoAlloc != nil ==> toAlloc(alloc, protoAlloc)
 //@   loop 1
-//@     modifies alloc.Assets[*]
+//@     modifies alloc.Assets[*], ghost("unmarshalledFrom"), ghost("unmarshalled")
 //@     invariant fresh(arr(alloc.Assets)) && off(alloc.Assets) == 0 && len(alloc.Backends) == len(alloc.Assets) && forall k int :: 0 <= k && k < $i ==> alloc.Assets[k] != nil
+//@     invariant protoAlloc != nil ==> len(alloc.Assets) == len(protoAlloc.Assets) && len(alloc.Backends) == len(protoAlloc.Backends) && toAllocAssets(alloc, protoAlloc, $i) &&
+//@       (streaming() ==> forall k int :: 0 <= k && k < len(protoAlloc.Backends) ==> be32is(protoAlloc.Backends[k], alloc.Backends[k]))
 //@   loop 2
 //@     modifies alloc.Locked[*]
 //@     invariant fresh(arr(alloc.Locked)) && off(alloc.Locked) == 0 && len(alloc.Backends) == len(alloc.Assets) && nonNilAssets(alloc.Assets) && forall k int :: 0 <= k && k < $i ==> nonNilBals(alloc.Locked[k].Bals)
+//@     invariant protoAlloc != nil ==> len(alloc.Assets) == len(protoAlloc.Assets) && len(alloc.Backends) == len(protoAlloc.Backends) && len(alloc.Locked) == len(protoAlloc.Locked) && toAllocAssets(alloc, protoAlloc, len(protoAlloc.Assets)) &&
+//@       (streaming() ==> forall k int :: 0 <= k && k < len(protoAlloc.Backends) ==> be32is(protoAlloc.Backends[k], alloc.Backends[k])) &&
+//@       (forall l int :: 0 <= l && l < $i ==> protoAlloc.Locked[l] != nil ==> toSub(alloc.Locked[l], protoAlloc.Locked[l]))
 
+// toState: what the converted state is, in terms of the message; the app is resolved from exactly the message's app bytes.
+//@ pred toState(y *channel.State, p *State) = (len(p.Id) == 32 ==> y.ID == idBytes(p.Id)) && y.Version == p.Version && y.IsFinal == p.IsFinal &&
+//@   (p.Allocation != nil ==> toAlloc(&y.Allocation, p.Allocation)) && (len(p.App) == 0 ==> isNoApp(y.App)) && y.Data != nil &&
+//@   (len(p.App) > 0 ==> allocated(payload(y.Data)) && unmarshalledFrom(y.Data) == bytesId(p.Data))
 //@ func ToState
 //@   noframe
+//@   callsite Resolve : protoState != nil && unmarshalledFrom(def) == bytesId(protoState.App)
 //@   ensures err == nil ==> stateDecoded(state)
+//@   ensures err == nil && protoState != nil ==> toState(state, protoState)
 
 //@ func ToParams
 //@   noframe
@@ -178,34 +196,28 @@ package protobuf
 //@     invariant forall k int :: 0 <= k && k < len(alloc.Assets) ==> bytesId(protoAlloc.Assets[k]) == marshalOf(alloc.Assets[k])
 //@     invariant forall k int :: 0 <= k && k < $i ==> fromSub(protoAlloc.Locked[k], alloc.Locked[k])
 //@ func verifPBAllocation
-//@   requires validAlloc(x) && nonNilAssets(x.Assets) && nonNilBalances(x.Balances) && nonNilLocked(x.Locked) && len(x.Backends) == len(x.Assets)
+//@   requires validAlloc(x) && nonNilAssets(x.Assets) && nonNilBalances(x.Balances) && nonNilLocked(x.Locked) && len(x.Backends) == len(x.Assets) && streaming()
 //@   requires forall i int :: 0 <= i && i < len(x.Backends) ==> 0 <= x.Backends[i] && x.Backends[i] <= 4294967295
 //@   modifies *
-//@   inlines ToAllocation
 //@   ensures fromErr == nil && toErr == nil ==> y != nil && allocRT(*y, x)
-//@   loop ToAllocation.1
-//@     modifies fresh, ghost("unmarshalledFrom"), ghost("unmarshalled")
-//@     invariant fromAlloc(protoAlloc, x) && alloc != nil && fresh(alloc) && len(alloc.Backends) == len(x.Backends) && len(alloc.Assets) == len(x.Assets) && fresh(arr(alloc.Assets)) && off(alloc.Assets) == 0
-//@     invariant forall k int :: 0 <= k && k < len(x.Backends) ==> alloc.Backends[k] == x.Backends[k]
-//@     invariant forall k int :: 0 <= k && k < $i ==> alloc.Assets[k] != nil && allocated(payload(alloc.Assets[k])) && unmarshalledFrom(alloc.Assets[k]) == marshalOf(x.Assets[k])
-//@   loop ToAllocation.2
-//@     modifies fresh
-//@     invariant fromAlloc(protoAlloc, x) && alloc != nil && fresh(alloc) && len(alloc.Backends) == len(x.Backends) && len(alloc.Assets) == len(x.Assets) && len(alloc.Locked) == len(x.Locked) && fresh(arr(alloc.Locked)) && off(alloc.Locked) == 0
-//@     invariant forall k int :: 0 <= k && k < len(x.Backends) ==> alloc.Backends[k] == x.Backends[k]
-//@     invariant forall k int :: 0 <= k && k < len(x.Assets) ==> alloc.Assets[k] != nil && allocated(payload(alloc.Assets[k])) && unmarshalledFrom(alloc.Assets[k]) == marshalOf(x.Assets[k])
-//@     invariant forall l int :: 0 <= l && l < $i ==> subEq(alloc.Locked[l], x.Locked[l])
 
-// Signature lists of signed states. The conversions of the parameters and the state are not part of this lemma (thin trusted
-// frames: they build new values and do not touch the signature lists).
+// Signature lists of signed states. The conversion of the parameters is not part of this lemma (a thin trusted frame: it builds
+// new values and does not touch the signature lists).
 //@ func FromParams
 //@   trusted
 //@   noframe
+//@ pred fromState(p *State, x *channel.State) = p != nil && len(p.Id) == 32 && idBytes(p.Id) == x.ID && p.Version == x.Version && p.IsFinal == x.IsFinal &&
+//@   fromAlloc(p.Allocation, x.Allocation) && (isNoApp(x.App) ==> len(p.App) == 0) &&
+//@   (!isNoApp(x.App) ==> len(p.App) == marshalLen(appDef(x.App)) && bytesId(p.App) == marshalOf(appDef(x.App)) && bytesId(p.Data) == marshalOf(x.Data))
 //@ func FromState
-//@   trusted
 //@   noframe
+//@   requires state != nil && state.App != nil && state.Data != nil && nonNilAssets(state.Assets)
+//@   requires forall i int :: 0 <= i && i < len(state.Backends) ==> 0 <= state.Backends[i] && state.Backends[i] <= 4294967295
+//@   ensures err == nil ==> protoState != nil && fresh(protoState) && fromState(protoState, state)
 //@ pred pbSigSame(y []byte, x []byte) = (x == nil ==> y == nil) && (x != nil ==> len(y) == len(x) && forall j int :: 0 <= j && j < len(x) ==> y[j] == x[j])
 //@ func verifPBSignedStateSigs
-//@   requires x != nil
+//@   requires x != nil && x.State != nil && x.State.App != nil && x.State.Data != nil && nonNilAssets(x.State.Assets)
+//@   requires forall i int :: 0 <= i && i < len(x.State.Backends) ==> 0 <= x.State.Backends[i] && x.State.Backends[i] <= 4294967295
 //@   modifies *
 //@   inlines FromSignedState, ToSignedState
 //@   ensures fromErr == nil && toErr == nil ==> len(y.Sigs) == len(x.Sigs) && forall k int :: 0 <= k && k < len(x.Sigs) ==> pbSigSame(y.Sigs[k], x.Sigs[k])
@@ -246,3 +258,12 @@ package protobuf
 //@     len(b) == wpos(w) - old(wpos(w)) - 2 && rpos(r) - old(rpos(r)) == wpos(w) - old(wpos(w)) &&
 //@     (forall i int :: 0 <= i && i < len(b) ==> b[i] == wroteAt(w, old(wpos(w)) + 2 + i))
 //@   ensures wErr == nil && rErr == nil && pbLinked(w, r, old(wpos(w)), old(rpos(r)), wpos(w) - old(wpos(w))) ==> rpos(r) - old(rpos(r)) == wpos(w) - old(wpos(w))
+
+// States.
+//@ pred pbStateEq(y *channel.State, x *channel.State) = y.ID == x.ID && y.Version == x.Version && y.IsFinal == x.IsFinal && allocRT(y.Allocation, x.Allocation) &&
+//@   (isNoApp(x.App) ==> isNoApp(y.App)) && y.Data != nil && (!isNoApp(x.App) ==> unmarshalledFrom(y.Data) == marshalOf(x.Data))
+//@ func verifPBState
+//@   requires x != nil && x.App != nil && x.Data != nil && validAlloc(x.Allocation) && nonNilAssets(x.Assets) && nonNilBalances(x.Balances) && nonNilLocked(x.Locked) && len(x.Backends) == len(x.Assets) && streaming()
+//@   requires (forall i int :: 0 <= i && i < len(x.Backends) ==> 0 <= x.Backends[i] && x.Backends[i] <= 4294967295) && (!isNoApp(x.App) ==> marshalLen(appDef(x.App)) > 0)
+//@   modifies *
+//@   ensures fromErr == nil && toErr == nil ==> y != nil && pbStateEq(y, x)
